@@ -831,6 +831,9 @@ class Interp:
         if lc is not None:
             from .loops import for_with_invariant
             return for_with_invariant(self, node, frame, lc, key, it)
+        return self.exec_for_plain(node, frame, it)
+
+    def exec_for_plain(self, node, frame, it):
         from . import models
         if isinstance(it, models.SymRange):
             i = it.start
@@ -969,7 +972,16 @@ class Interp:
             c = truth_term(self.ctx, self.eval(node.test, frame))
             if isinstance(c, bool):
                 return self.eval(node.body if c else node.orelse, frame)
+            if self.ctx.check(z3.Not(c)) == z3.unsat:           # decided by the path condition
+                return self.eval(node.body, frame)
+            if self.ctx.check(c) == z3.unsat:
+                return self.eval(node.orelse, frame)
             a, b = self.eval(node.body, frame), self.eval(node.orelse, frame)
+            if isinstance(a, (bytes, SBytes)) and isinstance(b, (bytes, SBytes)):
+                sa, sb = ops.as_sseq(a), ops.as_sseq(b)
+                la, lb = sa.length(), sb.length()
+                lt = z3.If(c, la if not isinstance(la, int) else z3.IntVal(la), lb if not isinstance(lb, int) else z3.IntVal(lb))
+                return SBytes(seq=SeqPart(z3.If(c, sa.seq_term(), sb.seq_term()), lt))
             if isinstance(a, (bool, SBool)) and isinstance(b, (bool, SBool)):
                 return wrap_bool(z3.If(c, ops.bool_term(a), ops.bool_term(b)))
             if isinstance(a, (int, SInt)) and isinstance(b, (int, SInt)):
